@@ -39,3 +39,7 @@ claim("C01", "DESIGN.md 3/C01",
       "prefix tree: 11 functions x 38 parameter sets x every series of length 0..5 (thorough 7) as ndarray and list (None/NaN), each executed twice on the same argument objects (no exception, one valid unmasked flag per element, shape, arguments byte-identical, repeat identical); event graph: every call history of depth<=3 (thorough 4) over 14 operations sharing the same argument objects - results and module state must be history independent",
       "does not judge which flag; 1-D inputs; None markers via list carriers only",
       TECH_TREE + "; " + TECH_GRAPH)
+claim("C02", "DESIGN.md 3/C02",
+      "for every missing-aware test x parameter set (every climatology member shape, one- and two-member lists): every series of length 0..4 (thorough 5) over {v1,v2,missing} with NaN/None spellings x the full product of presence masks of depth (2^n) or lon/lat (4^n); per position: missing observation -> MISSING (UNKNOWN only where the test is undefined), present observation MISSING only if a needed input is missing",
+      "does not judge which of GOOD/SUSPECT/FAIL; 'undefined irrespective of the value' is decided by the scalar reference",
+      TECH_TREE)
